@@ -454,7 +454,7 @@ function render(files, scripts, path, data, opts) {
         case 'class': node.attrs.push(['class', null, val]); break
         case 'style': node.attrs.push(['style', null, val]); break
         case 'id': node.attrs.push(['id', null, val]); break
-        case 'slot': node.slot = val; break
+        case 'slot': node.slot = Y(val); break // the slot name is a string (null / undefined: the default slot)
         case 'data-': node.attrs.push(['dataset', dashToCamel(a.name.toLowerCase()), a.v === undefined ? true : val]); break
         case 'data:': node.attrs.push(['dataset', a.name, a.v === undefined ? true : val]); break
         case 'mark': node.attrs.push(['mark', a.name, a.v === undefined ? true : val]); break
